@@ -19,6 +19,7 @@ import TE.Driver.Binned
 import TE.Driver.Rank
 import TE.Driver.Text
 import TE.Driver.Window
+import TE.Driver.Sync
 open TE TE.Driver
 
 def allFams : List (String × String × (Args → Except String Fam)) :=
@@ -28,7 +29,7 @@ def allPacks : List (String × (Args → Except String Pack)) :=
   aggPacks ++ curvePacks ++ binnedPacks ++ rankPacks ++ textPacks ++ windowPacks
 
 def allFns : List (String × (Args → Except Err String)) :=
-  aggFns ++ curveFns ++ binnedFns ++ rankFns ++ textFns ++ windowFns
+  aggFns ++ curveFns ++ binnedFns ++ rankFns ++ textFns ++ windowFns ++ syncFns
 
 def findFn (name : String) : Option (Args → Except String Fam) :=
   (allFams.find? (·.1 = name)).map (·.2.2)
